@@ -48,6 +48,7 @@ namespace muduo
 {
 extern __thread char t_time[64];        // Logging.cc:38-40 (per-thread cache of the formatted second)
 extern __thread time_t t_lastSecond;
+extern __thread char t_errnobuf[512];   // strerror_tl's buffer
 }
 
 using std::string;
@@ -166,6 +167,24 @@ static bool streamItem(LogStream& s, const std::vector<string>& w, size_t at)
     if (!inRange("u", w[at + 1])) return false;
     uint32_t bits = static_cast<uint32_t>(parseU(w[at + 1])); float f; memcpy(&f, &bits, 4); s << f;
   }
+  else if (k == "FMI")
+  {
+    // Fmt("%07d", int): the constructor asserts length < sizeof buf_ (32): not a value otherwise
+    if (!inRange("i", w[at + 1])) return false;
+    int v = static_cast<int>(parseS(w[at + 1]));
+    char probe[64];
+    if (snprintf(probe, sizeof probe, "%07d", v) >= 32) return false;
+    s << muduo::Fmt("%07d", v);
+  }
+  else if (k == "FMD")
+  {
+    // Fmt("%10.4f", double): up to 300+ characters for large magnitudes -> the assert: rejected here
+    if (!inRange("ull", w[at + 1])) return false;
+    uint64_t bits = parseU(w[at + 1]); double d; memcpy(&d, &bits, 8);
+    char probe[512];
+    if (snprintf(probe, sizeof probe, "%10.4f", d) >= 32) return false;
+    s << muduo::Fmt("%10.4f", d);
+  }
   else { fprintf(stderr, "bad item %s\n", k.c_str()); exit(2); }
   return true;
 }
@@ -220,6 +239,17 @@ static TrueSample logTrue(const char* who)
   r.t1 = realNow();
   r.line = g_captured;
   return r;
+}
+
+// does the line carry the "%5d " rendering of the kernel tid of the thread that logged it?  (the deterministic
+// part of NOW: the model predicts these flags from the regenerated afterFork / atfork registration)
+static int tidFlag(const TrueSample& s)
+{
+  char want[32];
+  snprintf(want, sizeof want, "%5ld ", s.tid);
+  // date(17) '.' us(6) 'Z' ' ' then the tid text
+  const size_t at = 17 + 1 + 6 + 2;
+  return s.line.size() > at + strlen(want) && s.line.compare(at, strlen(want), want) == 0 ? 1 : 0;
 }
 
 static void printTrue(const char* who, const TrueSample& s)
@@ -419,6 +449,15 @@ int main()
       g_virtTime = false; g_virtTid = false;
       muduo::CurrentThread::t_cachedTid = 0;
     }
+    else if (k == "SE")
+    {
+      // strerror_tl: GNU strerror_r returns either a static string (known errno) or the text it wrote into t_errnobuf
+      int e = atoi(w[1].c_str());
+      const char* r = muduo::strerror_tl(e);
+      bool inbuf = (r >= muduo::t_errnobuf && r < muduo::t_errnobuf + sizeof muduo::t_errnobuf);
+      size_t n = strlen(r);
+      printf("ok |nd where=%s len=%zu size=%zu text=%s\n", inbuf ? "buf" : "static", n, sizeof muduo::t_errnobuf, vh::hexOf(string(r, n)).c_str());
+    }
     else if (k == "NOW")
     {
       // true metadata: real clock, real thread ids.  Nothing here is scripted.
@@ -466,7 +505,8 @@ int main()
         c.line = vh::bytesOfSpec(h1);
         d.line = vh::bytesOfSpec(h2);
       }
-      printf("ok |nd pid=%d child=%d", static_cast<int>(::getpid()), static_cast<int>(pid));
+      printf("ok main=%d main2=%d thread=%d child=%d childthread=%d |nd pid=%d child=%d", tidFlag(a), tidFlag(a2), tidFlag(b), tidFlag(c), tidFlag(d),
+             static_cast<int>(::getpid()), static_cast<int>(pid));
       printTrue("main", a); printTrue("main2", a2); printTrue("thread", b); printTrue("child", c); printTrue("childthread", d);
       printf("\n");
     }
